@@ -327,6 +327,25 @@ pub struct TreeFacts {
     pub n_rules: u32,
 }
 
+/// true if a token node is found below `n` (bounded: depth 64, `budget` nodes; false when the bound is hit first)
+fn holds_token(cst: &Cst<'_>, n: NodeRef, depth: usize, budget: &mut usize) -> bool {
+    if depth > 64 || *budget == 0 {
+        return false;
+    }
+    *budget -= 1;
+    match cst.get(n) {
+        Node::Token(..) => true,
+        Node::Rule(..) => {
+            for c in cst.children(n) {
+                if holds_token(cst, c, depth + 1, budget) {
+                    return true;
+                }
+            }
+            false
+        }
+    }
+}
+
 /// C01 + C02 online: walks the returned tree through children / get / span only.
 pub fn check_tree(cst: &Cst<'_>, toks: &[Token], spans: &[Span], source: &str, collect_nodes: bool) -> TreeFacts {
     let mut f = TreeFacts { dump: String::new(), rule_nodes: vec![], problems: vec![], n_error_nodes: 0, n_empty_nodes: 0, n_rules: 0 };
@@ -343,6 +362,12 @@ pub fn check_tree(cst: &Cst<'_>, toks: &[Token], spans: &[Span], source: &str, c
         }
         if !visited.insert(n.0) {
             f.problems.push(format!("C02 node {} reachable twice", n.0));
+            // C01: a plain depth-first walk (no visited set) descends into this node again; if it holds a
+            // token, that token is visited more than once
+            let mut budget = 4096usize;
+            if holds_token(cst, n, 0, &mut budget) {
+                f.problems.push(format!("C01 node {} is reached twice by a depth-first walk and holds a token: that token is visited more than once", n.0));
+            }
             return n.0;
         }
         match cst.get(n) {
